@@ -7,6 +7,7 @@ import (
 	"encoding/hex"
 	"encoding/json"
 	"fmt"
+	"math"
 	"os"
 	"strings"
 
@@ -35,6 +36,7 @@ type Step struct {
 	Sep    string `json:"sep,omitempty"`    // hex
 	SepNum *int64 `json:"sepnum,omitempty"` // concat: the separator is this number
 	N      int64  `json:"n,omitempty"`      // fill: how many
+	JHuge  bool   `json:"jhuge,omitempty"`  // unpack: j = math.huge
 	Cmp    *Cmp   `json:"cmp,omitempty"`
 }
 
@@ -340,6 +342,11 @@ func (r *runner) exec(s *Step) {
 			if s.J != nil {
 				args = append(args, lua.LNumber(*s.J))
 			}
+		}
+		if s.JHuge {
+			// int(+Inf) is the most negative int on the platforms this runs on
+			args = append(args[:2:2], lua.LNumber(math.Inf(1)))
+			s.J = zp(math.MinInt64)
 		}
 		res, err := r.callG("unpack", args...)
 		if err != nil {
